@@ -680,6 +680,18 @@ func main() {
 			in.ways = []osm.Way{{ID: 20, Nodes: []osm.NodeID{1, 2, 3, 4, 1}}, {ID: 11, Nodes: []osm.NodeID{1, 3}, Tags: osm.Tags{{Key: "highway", Value: "path"}}}}
 			in.relations = []osm.Relation{{ID: 20, Members: []osm.Member{{Type: osm.ElementTypeWay, ID: 11, Role: ""}}, Tags: osm.Tags{{Key: "type", Value: "route"}}}}
 			run(c, in)
+			// fixed (fixes/C29-reserved-geometry-keys.patch): OSM tags keyed point / path. Before the fix the open
+			// way 18 (point=yes) was a "point" of length 1 for ValidatePath and missing from the world; the
+			// node's point= and the way's path= values were overwritten by the geometry
+			in = &input{wf: true}
+			in.nodes = square([4]int64{1, 2, 3, 4}, -33.9, 18.4)
+			in.nodes[0].Tags = osm.Tags{{Key: "point", Value: "trig"}, {Key: "path", Value: "x"}}
+			in.ways = []osm.Way{
+				{ID: 18, Nodes: []osm.NodeID{1, 2, 3}, Tags: osm.Tags{{Key: "highway", Value: "footway"}, {Key: "point", Value: "yes"}}},
+				{ID: 19, Nodes: []osm.NodeID{1, 3, 4}, Tags: osm.Tags{{Key: "path", Value: "yes"}}},
+				{ID: 21, Nodes: []osm.NodeID{1, 2, 3, 4, 1}, Tags: osm.Tags{{Key: "point", Value: "a"}, {Key: "path", Value: "b"}}},
+			}
+			run(c, in)
 			c.NonTrivial()
 		},
 		Case: func(c *hx.Ctx) {
